@@ -41,6 +41,11 @@ def gen_case(seed, i):
     nroots = rng.choice([1, 2, 3])
     world, roots = gen.gen_world(rng, cfg, nroots=nroots, hostile=rng.random() < 0.7, max_files=rng.choice([6, 12, 20]),
                                  families=rng.randint(1, 4), min_len=1, hostile_roots=rng.random() < 0.3)
+    if rng.random() < 0.15:
+        # sparse duplicates: length and allocated size differ by orders of magnitude (byte totals must agree anyway)
+        n_ = rng.choice([200000, 70000])
+        for k_ in range(rng.choice([2, 3])):
+            world.entries.append({"t": "f", "p": "%s/sparse%d" % (roots[k_ % len(roots)], k_), "c": {"sparse": n_}})
     gflags = []
     if nroots >= 2 and rng.random() < 0.3:
         gflags.append("--isolate")
